@@ -476,7 +476,7 @@ fn interp_basic(op: &Op, u: u32, c: &mut Commands, h: &mut H) -> Option<bool>
                 // The new system only becomes a target for other ops once its spawn command has been applied
                 // (despawning a reserved entity before `Commands::spawn` is applied is a Bevy-level panic, not under test).
                 let i = *inst;
-                let mut publish = |c: &mut Commands, sc: SystemCommand| { c.queue(move |w: &mut World| { w.resource_mut::<H>().set_inst(i, sc); }); };
+                let publish = |c: &mut Commands, sc: SystemCommand| { c.queue(move |w: &mut World| { w.resource_mut::<H>().set_inst(i, sc); }); };
                 match (mode, flavour)
                 {
                     (Mode::Persistent, Flavour::FallibleDrop) => { let sc = c.react().on_persistent(b, plain_actor::<DropErr>(i)); publish(c, sc); }
